@@ -100,6 +100,22 @@ struct Context {
     mode: ContextMode,
 }
 
+// what a build has to give back when its source is rejected
+struct BuildMarks {
+    input_len: usize,
+    nested_len: usize,
+    fs_len: usize,
+    cs_len: usize,
+    di_len: usize,
+    heap_len: usize,
+    ds_len: usize,
+    rs_len: usize,
+    ls_len: usize,
+    ss_len: usize,
+    rl_len: usize,
+    ctx: Context,
+}
+
 #[derive(Debug, Clone, Default, PartialEq)]
 pub struct Frame {
     fn_addr: usize,
@@ -351,17 +367,63 @@ impl State {
 
     fn build_from_file(&mut self, path: Xstr, mode: ContextMode) -> Xresult {
         let s = crate::file::fs_overlay::read_source_file(&path)?;
+        let marks = self.build_marks();
         self.context_open(mode)?;
         self.intern_source(s.into(), Some(path))?;
-        self.build0()?;
+        if let Err(e) = self.build0() {
+            self.build_unwind(marks);
+            return Err(e);
+        }
         self.context_close()
     }
 
     fn build_from_source(&mut self, s: Xstr, mode: ContextMode) -> Xresult {
+        let marks = self.build_marks();
         self.context_open(mode)?;
         self.intern_source(s, None)?;
-        self.build0()?;
+        if let Err(e) = self.build0() {
+            self.build_unwind(marks);
+            return Err(e);
+        }
         self.context_close()
+    }
+
+    fn build_marks(&self) -> BuildMarks {
+        BuildMarks {
+            input_len: self.input.len(),
+            nested_len: self.nested.len(),
+            fs_len: self.flow_stack.len(),
+            cs_len: self.code.len(),
+            di_len: self.dict.len(),
+            heap_len: self.heap.len(),
+            ds_len: self.data_stack.len(),
+            rs_len: self.return_stack.len(),
+            ls_len: self.loops.len(),
+            ss_len: self.special.len(),
+            rl_len: self.reverse_log.as_ref().map(|log| log.len()).unwrap_or(0),
+            ctx: self.ctx.clone(),
+        }
+    }
+
+    // A source that was rejected while it was read or compiled leaves no trace: its unread
+    // text, open contexts and control structures, half-compiled code, definitions and
+    // variables, and whatever its meta blocks left on the stacks are given back.
+    fn build_unwind(&mut self, m: BuildMarks) {
+        self.input.truncate(m.input_len);
+        self.nested.truncate(m.nested_len);
+        self.flow_stack.truncate(m.fs_len);
+        self.code.truncate(m.cs_len);
+        self.debug_map.truncate(m.cs_len);
+        self.dict.truncate(m.di_len);
+        self.heap.truncate(m.heap_len);
+        self.data_stack.truncate(m.ds_len);
+        self.return_stack.truncate(m.rs_len);
+        self.loops.truncate(m.ls_len);
+        self.special.truncate(m.ss_len);
+        if let Some(log) = self.reverse_log.as_mut() {
+            log.truncate(m.rl_len);
+        }
+        self.ctx = m.ctx;
     }
 
     pub fn eval_file(&mut self, path: Xstr) -> Xresult {
